@@ -44,6 +44,7 @@ class World(object):
         self.env = Environment()
         with self.env:
             self.parser = SmtLibParser(self.env)
+        self.last_exc = None
 
 
 def wrong_typed(ty):
@@ -91,9 +92,17 @@ def do_fail(world, fail):
                 FunctionInterpretation([pys.build(env, p) for p in params], pys.build(env, body))
             else:
                 return False
-        except Exception:
+        except Exception as e:
+            world.last_exc = type(e).__name__
             return True
     return False
+
+
+def reftype_or_none(b):
+    try:
+        return reftype(b)
+    except IllTyped:
+        return None
 
 
 def gen_fail(g, probe, rel):
@@ -108,7 +117,12 @@ def gen_fail(g, probe, rel):
         opts = [("Plus", (probe if t == BOOL else const(BOOL, True), const(INT, 1))),
                 ("And", (f, const(INT, 0))) if t != INT else ("And", (const(BOOL, True), f)),
                 ("Equals", (probe, probe)) if t == BOOL else ("Ite", (f, f, f)),
-                ("BVAdd", (const(BV(2), 1), const(BV(4), 1))), ("Select", (f, f)), ("LE", (f, const(STRING, "a")))]
+                ("BVAdd", (const(BV(2), 1), const(BV(4), 1))), ("Select", (f, f)), ("LE", (f, const(STRING, "a"))),
+                # type checks that fail with something else than PysmtTypeError
+                ("BVULT", (sym("i0", INT), sym("i1", INT))), ("BVSLE", (sym("i0", INT), const(BV(4), 1))),
+                ("BVConcat", (sym("i0", INT), const(BV(4), 1))), ("BVULE", (f, f) if (t is None or not is_bv(t)) else (f, const(INT, 0))),
+                ("Store", (f, f, f)), ("StrConcat", (const(INT, 1), const(INT, 2))), ("ToReal", (const(BOOL, True),)),
+                ("BVSLT", (probe, probe) if reftype_or_none(probe) == BOOL else (const(REAL, 1), const(REAL, 2)))]
         c = g.choice(opts)
         return ("construct", c[0], tuple(c[1]))
     if kind == "substitute":
@@ -223,6 +237,23 @@ def check_history(run, probe, history, probes, ptexts):
                      dict(case, failing_text=text),
                      "the re-used parser reads %r after failing calls %s, %r on the twin\n text=%s" % (
                          _brief(A.env, a), sorted(set(kinds)), _brief(Bw.env, b), text[:400]))
+    # the failing calls themselves, made again: in the twin they are made for the first time, so that is what
+    # they return "had the failing call never been made" (done last: it makes the twin see failures too)
+    for item in history:
+        if item[0] != "fail":
+            continue
+        A.last_exc = Bw.last_exc = None
+        ra, rb = do_fail(A, item[1]), do_fail(Bw, item[1])
+        run.cls("probe:repeat-failing-call")
+        # text-based calls may legitimately fail differently (a failed script / construction leaves the symbols it
+        # created, by design); for them only raised-vs-returned is compared
+        same_symbols = item[1][0] in ("construct", "substitute", "size-measure", "array-nonconst-key", "fi-free-vars",
+                                      "cnf-quantified", "qelim-nonbool")
+        if ra != rb or (same_symbols and A.last_exc != Bw.last_exc):
+            run.fail({"subcheck": "trace:repeat-differs", "kind": item[1][0]}, dict(case, failing=item[1]),
+                     "the call %s made again after it failed: %s; made for the first time on the twin: %s" % (
+                         show(item[1], 200) if False else repr(item[1])[:300],
+                         "raised " + str(A.last_exc) if ra else "returned", "raised " + str(Bw.last_exc) if rb else "returned"))
     run.extra["matrix_cells"] = len(getattr(run, "nontrivial_cells", ()))
 
 
